@@ -2,7 +2,9 @@ package message
 
 import (
 	"bytes"
+	"reflect"
 
+	"github.com/golang/snappy"
 	"github.com/kelindar/binary"
 
 	"github.com/emitter-io/emitter/internal/verifrt"
@@ -33,4 +35,50 @@ func VerifC09IDAccessors(v *verifrt.T) {
 		v.Assert(!p1 && !p2, "C09.id.accessors-safe-on-well-sized-ids")
 		v.Assert(len(s) == (len(id)-fixed)/4, "C09.id.ssid-length")
 	}
+}
+
+// ---- kelindar/binary's reflection codecs, transcribed for the types the cluster port decodes ----
+//
+// binary.Unmarshal finds codecs by reflection, which the executor does not interpret. What
+// matters for hostile input is how the slice codecs size their result: they read the element
+// count and allocate for the *declared* count before reading a single element
+// (codecs.go: reflectSliceCodec.DecodeTo / varuintSliceCodec.DecodeTo / byteSliceCodec.DecodeTo,
+// v1.0.19). The stand-ins below follow those functions line by line over the real Decoder.
+
+func c09SnappyDecode(dst, src []byte) ([]byte, error) { return append([]byte(nil), src...), nil }
+
+func c09Unmarshal(b []byte, out interface{}) error {
+	d := binary.NewDecoder(bytes.NewBuffer(b))
+	switch o := out.(type) {
+	case *Frame: // reflectSliceCodec with the messageCodec as element codec
+		l, err := d.ReadUvarint()
+		if err == nil && l > 0 {
+			*o = make(Frame, int(l))
+			for i := 0; i < int(l); i++ {
+				if err = new(messageCodec).DecodeTo(d, reflect.ValueOf(&(*o)[i]).Elem()); err != nil {
+					return err
+				}
+			}
+		}
+		return err
+	case *Message:
+		return new(messageCodec).DecodeTo(d, reflect.ValueOf(o).Elem())
+	}
+	panic("c09Unmarshal: type not transcribed")
+}
+
+// VerifC09DecodeFrame: every unicast from a peer is DecodeFrame(bytes from the cluster port),
+// called on the mesh goroutine. Arbitrary bytes must not panic and must not make the decoder
+// allocate more message slots than the payload has bytes.
+func VerifC09DecodeFrame(v *verifrt.T) {
+	b := v.Bytes(v.Choice(v.Bound("framebytes")+1, "n"), "f")
+	in := b
+	if !v.Symbolic() {
+		in = snappy.Encode(nil, b) // (the stand-in for snappy.Decode is the identity)
+	}
+	var f Frame
+	panicked := v.Try(func() { f, _ = DecodeFrame(in) })
+	v.Reach("frame-decoded")
+	v.Assert(!panicked, "C09.frame.decode-no-panic")
+	v.Assert(cap(f) <= len(b), "C09.frame.slots-within-input")
 }
